@@ -110,10 +110,25 @@ func (pt *PT) validatedAt(fn *ssa.Function, v ssa.Value, at ssa.Instruction) boo
 	if ok {
 		return true
 	}
-	// (b) IsAbs(v) && Clean(v) == v dominate
+	// (b) IsAbs(v) && Clean(v) == v dominate — directly or through a predicate helper
+	return pt.condsValidate(condsAtInstr(at), v, 0)
+}
+
+// condsValidate: the branch literals imply that v is absolute and equal to its own path.Clean.
+func (pt *PT) condsValidate(conds []Cond, v ssa.Value, depth int) bool {
 	abs, clean := false, false
-	for _, cd := range condsAtInstr(at) {
+	for _, cd := range conds {
 		nc := normCond(cd)
+		// a predicate helper of the module that is true only for validated arguments
+		if c, isCall := nc.V.(*ssa.Call); isCall && nc.Truth && depth < 2 {
+			if g := staticCallee(&c.Call); g != nil && pt.p.InModule(g) && g.Blocks != nil {
+				for k, a := range c.Call.Args {
+					if a == v && pt.predValidates(g, k, depth+1) {
+						return true
+					}
+				}
+			}
+		}
 		if c, isCall := nc.V.(*ssa.Call); isCall && calleeName(&c.Call) == "path.IsAbs" && c.Call.Args[0] == v && nc.Truth {
 			abs = true
 		}
@@ -320,4 +335,89 @@ func (pt *PT) callClass(fn *ssa.Function, c *ssa.Call, at ssa.Instruction, env m
 		return pTop
 	}
 	return out
+}
+
+// predValidates: g returns bool, and on every way of returning true its k-th parameter has passed the two tests.
+func (pt *PT) predValidates(g *ssa.Function, k int, depth int) bool {
+	if k >= len(g.Params) || g.Signature.Results().Len() != 1 {
+		return false
+	}
+	if b, ok := g.Signature.Results().At(0).Type().Underlying().(*types.Basic); !ok || b.Kind() != types.Bool {
+		return false
+	}
+	prm := g.Params[k]
+	n := 0
+	var check func(val ssa.Value, conds []Cond, d int) bool
+	check = func(val ssa.Value, conds []Cond, d int) bool {
+		if d > 4 {
+			return false
+		}
+		if c, ok := val.(*ssa.Const); ok {
+			if c.Value != nil && c.Value.String() == "false" {
+				return true // never the true result
+			}
+			n++
+			return pt.condsValidate(conds, prm, depth)
+		}
+		if ph, ok := val.(*ssa.Phi); ok {
+			for i, e := range ph.Edges {
+				pred := ph.Block().Preds[i]
+				cs := append(append([]Cond{}, conds...), condsAt(pred)...)
+				if ifi, ok := pred.Instrs[len(pred.Instrs)-1].(*ssa.If); ok && pred.Succs[0] != pred.Succs[1] {
+					for si := 0; si < 2; si++ {
+						if pred.Succs[si] == ph.Block() {
+							cs = append(cs, normCond(Cond{ifi.Cond, si == 0}))
+						}
+					}
+				}
+				if !check(e, cs, d+1) {
+					return false
+				}
+			}
+			return true
+		}
+		// a computed condition: the result is true exactly when it is
+		n++
+		return pt.condsValidate(append(append([]Cond{}, conds...), Cond{val, true}), prm, depth)
+	}
+	for _, ret := range returnsOf(g) {
+		if !check(ret.Results[0], condsAtInstr(ret), 0) {
+			return false
+		}
+	}
+	return n > 0
+}
+
+// paramEnv: the classes of g's string parameters, joined over all of its call sites — only when g is an unexported
+// function whose every use is a plain static call (so the call sites describe every execution).
+func (pt *PT) paramEnv(g *ssa.Function, depth int) map[*ssa.Parameter]pclass {
+	if depth > 2 || g.Parent() != nil {
+		return nil
+	}
+	sites, exact := pt.p.staticCallSites(g)
+	if !exact || len(sites) == 0 {
+		return nil
+	}
+	env := map[*ssa.Parameter]pclass{}
+	for i, prm := range g.Params {
+		if b, ok := prm.Type().Underlying().(*types.Basic); !ok || b.Info()&types.IsString == 0 {
+			continue
+		}
+		first := true
+		var c pclass
+		for _, cs := range sites {
+			if i >= len(cs.Call.Args) {
+				c = pTop
+				break
+			}
+			ac := pt.classAt(cs.Parent(), cs.Call.Args[i], cs, pt.paramEnv(cs.Parent(), depth+1), 0)
+			if first {
+				c, first = ac, false
+			} else {
+				c = joinClass(c, ac)
+			}
+		}
+		env[prm] = c
+	}
+	return env
 }
